@@ -106,14 +106,22 @@ func runC16(c *core.Ctx, idx int) {
 	// code and labels never change and never clash (derived from the id): their index entries exist exactly as long as
 	// the entity does, whatever was refused in between
 	def := &schema.StoreDef{Type: "widgets", BasePath: []string{"stores"}, Ext: true, System: true,
-		Fields: []schema.Field{{Name: "name", Kind: schema.KStr}, {Name: "code", Kind: schema.KStr}, {Name: "labels", Kind: schema.KList}},
-		Unique: []schema.UniqueDef{{Field: "code", Nullable: true}}, SetIdx: []string{"labels"}}
+		Fields: []schema.Field{{Name: "name", Kind: schema.KStr}, {Name: "code", Kind: schema.KStr}, {Name: "labels", Kind: schema.KList},
+			{Name: "pegs", Kind: schema.KList, FK: "pegs", Derived: true}, {Name: "rpegs", Kind: schema.KList, FK: "pegs", Derived: true}},
+		Unique: []schema.UniqueDef{{Field: "code", Nullable: true}}, SetIdx: []string{"labels"},
+		Links: []schema.LinkDef{{Field: "pegs", Target: "pegs", TargetField: "widgets"}, {Field: "rpegs", Target: "pegs", TargetField: "rwidgets", RefCounted: true}}}
+	// every widget is linked to both pegs from its creation on (a link collection and a ref-counted one): the links,
+	// seen from either side, exist exactly as long as the widget does - a refused delete leaves them alone
+	pegs := &schema.StoreDef{Type: "pegs", BasePath: []string{"stores"},
+		Fields: []schema.Field{{Name: "widgets", Kind: schema.KList, FK: "widgets", Derived: true}, {Name: "rwidgets", Kind: schema.KList, FK: "widgets", Derived: true}},
+		Links:  []schema.LinkDef{{Field: "widgets", Target: "widgets", TargetField: "pegs"}, {Field: "rwidgets", Target: "widgets", TargetField: "rpegs", RefCounted: true}}}
 	// the child store has an index of its own (kcode, derived from the id like code): it goes when the child data goes,
 	// and only then - not when a delete is refused further up
 	kid := &schema.StoreDef{Type: "widgets", Parent: "widgets", ChildPath: []string{"kid"}, Fields: []schema.Field{{Name: "extra", Kind: schema.KStr}, {Name: "kcode", Kind: schema.KStr}},
 		Unique: []schema.UniqueDef{{Field: "kcode", Nullable: true}}}
-	sc := schema.Build([]*schema.StoreDef{def, kid})
+	sc := schema.Build([]*schema.StoreDef{def, kid, pegs})
 	kst := sc.St("widgets/kid")
+	pst := sc.St("pegs")
 	path := c.TempFile("c16")
 	db, err := sc.OpenDb(path)
 	if err != nil {
@@ -122,6 +130,17 @@ func runC16(c *core.Ctx, idx int) {
 	}
 	defer func() { _ = db.Close(); _ = os.Remove(path) }()
 	st := sc.St("widgets")
+	if err := db.Update(nil, func(ctx boltz.MutateContext) error {
+		for _, id := range []string{"p1", "p2"} {
+			if err := pst.Store.Create(ctx, &schema.Ent{Id: id, Typ: "pegs", V: map[string]any{}}); err != nil {
+				return err
+			}
+		}
+		return nil
+	}); err != nil {
+		c.Violation("C16 setup", err.Error(), nil)
+		return
+	}
 	model := map[string]*c16Ent{}
 	ids := []string{"w1", "w2", "w3", "w4", "w5"}
 	names := []string{"a", "b", "c", ""}
@@ -235,7 +254,15 @@ func runC16(c *core.Ctx, idx int) {
 			e.Ext.Tags = op.Tags
 			e.Ext.Migrate = op.Migrate
 			if op.Kind == "create" {
-				return target.Store.Create(use, e)
+				fresh := !st.Store.IsEntityPresent(use.Tx(), op.Id)
+				if err := target.Store.Create(use, e); err != nil || !fresh {
+					return err
+				}
+				if err := st.Links["pegs"].AddLinks(use.Tx(), op.Id, "p1", "p2"); err != nil {
+					return err
+				}
+				_, err := st.RcLinks["rpegs"].IncrementLinkCount(use.Tx(), []byte(op.Id), []byte("p1"))
+				return err
 			}
 			if op.Kind == "update" {
 				return target.Store.Update(use, e, nil)
@@ -483,6 +510,23 @@ func runC16(c *core.Ctx, idx int) {
 			if !reflect.DeepEqual(append([]string{}, shared...), append([]string{}, exp...)) && (len(shared) > 0 || len(exp) > 0) {
 				c.Violationf("C16 set index differs from the entities after the transaction", map[string]any{"history": tailC16(hist, 5)}, "labels[shared] = %q, entities %q", shared, exp)
 			}
+			for _, side := range []struct {
+				what string
+				got  []string
+			}{{"widgets of peg p1", pst.Links["widgets"].GetLinks(tx, "p1")}, {"widgets of peg p2", pst.Links["widgets"].GetLinks(tx, "p2")}, {"widgets of peg p1 (ref-counted)", c16RcLinks(pst.RcLinks["rwidgets"], tx, "p1")}} {
+				c.Eval()
+				if got := append([]string{}, side.got...); !reflect.DeepEqual(got, append([]string{}, exp...)) {
+					c.Violationf("C16 links of the store's entities differ from the entities after the transaction", map[string]any{"history": tailC16(hist, 5)}, "%s = %q, entities %q", side.what, got, exp)
+				}
+			}
+			for _, id := range exp {
+				if got := st.Links["pegs"].GetLinks(tx, id); !reflect.DeepEqual(got, []string{"p1", "p2"}) {
+					c.Violationf("C16 links of an entity changed though no link operation was made", map[string]any{"history": tailC16(hist, 5), "id": id}, "pegs of %s = %q", id, got)
+				}
+				if got := c16RcLinks(st.RcLinks["rpegs"], tx, id); !reflect.DeepEqual(got, []string{"p1"}) {
+					c.Violationf("C16 ref-counted links of an entity changed though no link operation was made", map[string]any{"history": tailC16(hist, 5), "id": id}, "rpegs of %s = %q", id, got)
+				}
+			}
 			for _, id := range ids {
 				kholder := string(kst.Unique["kcode"].Read(tx, []byte("kc-"+id)))
 				if m, live := model[id]; (live && m.Child && kholder != id) || ((!live || !m.Child) && kholder != "") {
@@ -524,6 +568,14 @@ func runC16(c *core.Ctx, idx int) {
 }
 
 type c16Key struct{}
+
+func c16RcLinks(lc boltz.RefCountedLinkCollection, tx *bbolt.Tx, id string) []string {
+	var out []string
+	for cur := lc.IterateLinks(tx, []byte(id), true); cur.IsValid(); cur.Next() {
+		out = append(out, string(cur.Current()))
+	}
+	return out
+}
 
 func normTags(t map[string]any) map[string]any {
 	if t == nil {
